@@ -874,6 +874,35 @@ class NameGlobReference(Bounded):
         return True
 
 
+class DefaultExcludes(Bounded):
+    """find_files() in a real build script with the project's default find_exclude: exactly the documented editor
+    leftovers (`.#*`, `*~`, `#*#`) are left out; a find_exclude given to project() replaces them."""
+    target = 'bfg9000/builtins/find.py::find_files'
+    properties = ('C11',)
+    reason = 'whole builtin layer with project defaults on a real directory: runtime contract only'
+    NAMES = ['a.c', '.#a.c', 'a.c~', '#a.c#', '.a.c#', 'a#', '~a.c', '.hidden', 'b#c']
+
+    def native_inputs(self, case, alphabet, maxlen, rng, extra=0):
+        yield {'find_exclude': None}
+        yield {'find_exclude': ['*.c']}
+
+    def native_check(self, case, raw):
+        from contracts.scripts import run_configure
+        proj = "project('p'%s)\n" % ('' if raw['find_exclude'] is None else ', find_exclude=%r' % raw['find_exclude'])
+        files = {'build.bfg': proj + "env.trace.append(('found', sorted(p.suffix for p in find_paths('d/*'))))\n"}
+        for n in self.NAMES:
+            files['d/' + n] = ''
+        trace = run_configure(files, [])
+        if any(t[0] == 'FAILED' for t in trace):
+            return self.fail(case, raw, 'configure_succeeds', error=[t[1] for t in trace if t[0] == 'FAILED'][0][-400:])
+        got = [t[1] for t in trace if t[0] == 'found'][0]
+        pats = ['.#*', '*~', '#*#'] if raw['find_exclude'] is None else raw['find_exclude']
+        want = sorted('d/' + n for n in self.NAMES if not any(_fnmatch.fnmatchcase(n, p) for p in pats))
+        if got != want:
+            return self.fail(case, raw, 'documented_default_excludes', got=got, expected=want)
+        return True
+
+
 def registry():
     return [MatchGlobRun(), MatchGlobRuns(), PathSplit(), MatchBase(), Match(), IsGlob(), FileFilterMatch(), GlobReference(),
-            NameGlobReference(), FindTree()]
+            NameGlobReference(), FindTree(), DefaultExcludes()]
